@@ -1,4 +1,4 @@
-(* Model of rfc8888.go.  Reproduces finding F6 (num_reports off by one) and F12 (FMT not checked) faithfully. *)
+(* Model of rfc8888.go (after the fix: of the 64 KiB buffer-size overflow in Marshal).  Reproduces finding F6 (num_reports off by one) and F12 (FMT not checked) faithfully. *)
 From Coq Require Import List NArith ZArith Bool.
 From Coq.Strings Require Import Byte.
 From RTCP Require Import Lib.Base Gen.Consts Model.Header Model.Reports.
@@ -98,7 +98,7 @@ Fixpoint put_blocks (buf : bytes) (off : N) (bs : list CCBlock) : res (bytes * N
 Definition CCFB_marshal (p : CCFB) : res bytes :=
   let header := CCFB_header p in
   let* hb := Header_marshal header in
-  let length := u16 (4 * u16 (h_len header + 1)) in
+  let length := 4 * (h_len header + 1) in
   let buf := zeros length in
   let* hdst := slice buf 0 c_headerLength in     (* buf[:headerLength] panics when length < 4 *)
   let* buf := copy_at buf 0 hb in
